@@ -37,11 +37,16 @@ package state
 
 //@ ghost gLastCopy Ref
 //@ func (*State).ExecBlock
-//@   props C16
-//@   requires s != nil && s.Validators != nil && block != nil && block.LastCommit != nil
+//@   props C16 C06
+//@   requires s != nil && block != nil
+//@   invariant-assumed s.Validators != nil && block.LastCommit != nil
 //@   nosafety
 //@   atcall Copy set gLastCopy = result
 //@   atcall IncrementAccum assert [one-round-per-block-on-a-private-copy] arg_valSet == gLastCopy && calls(Copy) == 2 && arg_times == 1 && calls(IncrementAccum) == 0
+//@   atcall SetBlockAndValidators assert [state-advances-only-after-the-application-executed-the-block] calls(execBlockOnApp) == 1 && calls(EndBlock) == 1 && calls(SetBlockAndValidators) == 0
+//@   atcall SaveIntermediate assert [intermediate-state-saved-after-execution-and-state-update] calls(execBlockOnApp) == 1 && calls(SetBlockAndValidators) == 1 && calls(SaveIntermediate) == 0
+//@   ensures [success-means-intermediate-state-saved] result == nil ==> calls(SaveIntermediate) == 1 && calls(execBlockOnApp) == 1
+//@   ensures [failure-saves-nothing] result != nil ==> calls(SaveIntermediate) == 0 && calls(SetBlockAndValidators) == 0
 //@   atcall SetBlockAndValidators assert [next-height-validators-are-the-rotated-copy] arg_nextValSet == gLastCopy && calls(IncrementAccum) == 1 && arg_prevValSet != gLastCopy && arg_prevValSet != old(s.Validators)
 
 // the bit array of signers is built in fresh storage: nothing that existed before is written
@@ -52,3 +57,16 @@ package state
 //@   assigns  nothing
 //@   loop 0 invariant 0 <= $i && $i <= len(block.LastCommit.Precommits)
 //@   loop 0 invariant (signed == nil && len(block.LastCommit.Precommits) == 0) || (wfBA(signed) && fresh(signed) && fresh(signed.Elems))
+
+// the application commits a block only after the block was executed successfully (C06)
+//@ ghost gExecErr Iface
+//@ func (*State).ApplyBlock
+//@   props C06
+//@   requires s != nil && block != nil
+//@   nosafety
+//@   trusted-assigns allbut(types.Block, types.Header, types.PartSet, gemmill.Angine, pbft.ConsensusState, pbft.RoundState, blockchain.BlockStore)
+//@   atcall ExecBlock set gExecErr = result
+//@   atcall ExecBlock assert [executed-once-and-first] calls(ExecBlock) == 0 && calls(CommitStateUpdateMempool) == 0 && arg_block == block
+//@   atcall CommitStateUpdateMempool assert [application-commit-only-after-successful-execution] calls(ExecBlock) == 1 && gExecErr == nil && calls(CommitStateUpdateMempool) == 0 && arg_block == block
+//@   ensures [success-means-executed-then-committed] result == nil ==> calls(ExecBlock) == 1 && calls(CommitStateUpdateMempool) == 1
+//@   ensures [failed-execution-commits-nothing] gExecErr != nil ==> calls(CommitStateUpdateMempool) == 0 && result != nil
